@@ -393,6 +393,13 @@ impl<'a, 'b> TagBlock<'a, 'b> {
                                 Some(end_pos) => start_pos.span(&end_pos).as_str(),
                                 None => "",
                             };
+                            // Whitespace that an inner pseudo-tag swallowed (`-%}` inside the
+                            // escaped text) still touches a trimming end tag.
+                            let output = if element_as_span.as_str().trim_start().starts_with("{%-") {
+                                output.trim_end_matches([' ', '\t', '\n', '\r'])
+                            } else {
+                                output
+                            };
 
                             return Ok(output);
                         }
